@@ -83,6 +83,8 @@ def gen_cases(tier, seed):
                       'pair_class': 'long-and-short'})
         cases.append({'kind': 'pair', 'seed': s + 2,
                       'pair_class': 'long-and-short'})
+        cases.append({'kind': 'pair', 'seed': s + 3,
+                      'pair_class': 'long-and-short'})
     stages = ['mapping', 'stats'] if tier == 'quick' else \
         list(c14.STAGES.keys())
     for st in stages:
@@ -701,7 +703,10 @@ cfg = json.loads(pathlib.Path(sys.argv[1]).read_text())
 barrier = pathlib.Path(sys.argv[2]); skew = float(sys.argv[3])
 while not barrier.exists():
     time.sleep(0.002)
-time.sleep(skew)
+if skew >= 0:
+    # start right after the next whole second (both runs of a pair do)
+    now = time.time()
+    time.sleep((1.0 - (now % 1.0)) + 0.01 + skew)
 with pw.quiet():
     run_mapping(config=cfg, output_path=cfg['extended_result_path'],
                 log_path=cfg['log_path'],
@@ -732,7 +737,7 @@ with pw.quiet():
         cp.write_text(json.dumps(cfg))
         go = work / f'go_{tag}'
         go.write_text('')
-        subprocess.run([sys.executable, str(sp), str(cp), str(go), '0'],
+        subprocess.run([sys.executable, str(sp), str(cp), str(go), '-1'],
                        check=True, timeout=200, env=dict(os.environ),
                        stdout=subprocess.DEVNULL, stderr=subprocess.DEVNULL)
         solo[tag] = mapping_outputs(cfg)
@@ -743,7 +748,7 @@ with pw.quiet():
         cfgs[tag] = cfg
         cp = work / f'pair_{tag}.json'
         cp.write_text(json.dumps(cfg))
-        skew = float(rng.uniform(0, 0.1))
+        skew = float(rng.uniform(0, 0.05))
         procs.append(subprocess.Popen(
             [sys.executable, str(sp), str(cp), str(barrier), str(skew)],
             env=dict(os.environ), stdout=subprocess.DEVNULL,
